@@ -24,6 +24,11 @@ def number_messages(f, prefix):
     for kind, cnf in gen.iter_cnfs(f):
         if kind != "filter":
             visit(cnf)
+            # every 4th call stays without a message: a record of a call must then carry none (not a neighbouring call's)
+            for line in cnf:
+                for alt in line:
+                    if alt["t"] == "call" and int(alt["msg"].rsplit("_", 1)[1]) % 4 == 3:
+                        alt["msg"] = None
         else:
             for line in cnf:
                 for alt in line:
@@ -60,6 +65,54 @@ def leaf_checks(entry, out, depth=0):
         out.append((ck.lower(), msg, path))
     else:
         out.append((k, None, None))
+
+
+def source_call_messages(text):
+    """{called rule name: set of custom messages (None = no message)} for every parameterised call in the rules text"""
+    import re
+    out = {}
+    for m in re.finditer(r"(?<![\w%.])(\w+)\(", text):
+        if re.search(r"\brule\s+$", text[:m.start()]):
+            continue
+        i, depth, q = m.end(), 1, None
+        while i < len(text) and depth:
+            ch = text[i]
+            if q:
+                if ch == "\\":
+                    i += 1
+                elif ch == q:
+                    q = None
+            elif ch in "\"'":
+                q = ch
+            elif ch == "(":
+                depth += 1
+            elif ch == ")":
+                depth -= 1
+            i += 1
+        mm = re.match(r"[ \t]*<<(.*?)>>", text[i:], re.S)
+        out.setdefault(m.group(1), set()).add(mm.group(1).strip() if mm else None)
+    return out
+
+
+def call_records(node, acc, top=True):
+    """(name, message) of every nested RuleCheck record (= parameterised call or lazily evaluated reference)"""
+    k, v = obs.container_kind(node)
+    if k == "RuleCheck" and not top:
+        acc.append((v["name"], v.get("message")))
+    for c in node.get("children", []):
+        call_records(c, acc, top=(k == "FileCheck"))
+
+
+def nested_report_rules(entry, acc, depth=0):
+    (k, v), = entry.items()
+    if k == "Rule":
+        if depth:
+            acc.append((v["name"], (v.get("messages") or {}).get("custom_message")))
+        for c in v.get("checks", []):
+            nested_report_rules(c, acc, depth + 1)
+    elif k == "Disjunctions":
+        for c in v.get("checks", []):
+            nested_report_rules(c, acc, depth + 1)
 
 
 def tree_fail_messages(node, acc, under_filter=False):
@@ -116,6 +169,24 @@ def check_report(ctx, tree, report, case, label):
     if len(report.get("not_compliant", [])) != len(nc):
         ctx.violation("not-compliant-shape:%s" % label, "not_compliant contains non-Rule entries", case)
         ok = False
+    # records of parameterised calls carry the message written at *that* call (or none)
+    src = source_call_messages(case["rules"]) if isinstance(case.get("rules"), str) else None
+    if src is not None:
+        recs = []
+        call_records(tree, recs)
+        reps = []
+        for e in report.get("not_compliant", []):
+            nested_report_rules(e, reps)
+        for where, lst in (("record", recs), ("report", reps)):
+            for name, msg in lst:
+                if name not in src:
+                    continue        # a plain named rule evaluated lazily inside a reference
+                ctx.res.counts["call_records"] += 1
+                ctx.res.distinct.add(("call-message", where, msg is not None))
+                if (msg or None) not in src[name]:
+                    ctx.violation("call-message:%s:%s" % (label, where), "the %s of a call of %s carries message %r, but the calls of %s in the rules file have %s" % (
+                        where, name, msg, name, sorted(src[name], key=str)), case)
+                    ok = False
     # leaf attribution
     subtree = {}
     for ch in tree.get("children", []):
@@ -296,7 +367,7 @@ def main(tier, seed):
     res = core.run_shards(shard, seed, tier, "C09")
     kinds = res.extra.get("leaf_kinds", set())
     floor = {"cases": (res.cases, 1500), "leaf_checks": (res.counts["leaf_checks"], 1000), "batch_reports": (res.counts["batch_reports"], 100),
-             "leaf_kinds": (len(kinds), 3)}
+             "leaf_kinds": (len(kinds), 3), "call_records": (res.counts["call_records"], 150)}
     return core.finish("C09", tier, seed, res, t0,
                        rule="random programs (distinct rule names, every clause with a unique custom message; type blocks, parameterised rules, nested blocks) x "
                             "documents: verbose record tree vs structured report of the same evaluation, and CLI batch reports over 1-3 rules files vs the union of "
